@@ -137,7 +137,7 @@ def _parse_params(c, params):
 def contract(key, module=None, qual=None, params=None, returns=None, requires=(), ensures=(),
              raises=None, modifies=(), loops=None, yields=False, pure=False, props=(),
              kind='repo', model=None, defaults=None, free_requires=(), notes='',
-             locals=None, verify=True, lemmas=(), reads=(), checks=(), scope_timeouts=(), is_property=False, ghost_entry=(), ghost_after=None, rely=(), call_requires=None):
+             locals=None, verify=True, lemmas=(), reads=(), checks=(), scope_timeouts=(), is_property=False, ghost_entry=(), ghost_after=None, rely=(), call_requires=None, ghost_exit=()):
     c = Contract(key)
     c.kind = kind
     c.module = module
@@ -166,6 +166,7 @@ def contract(key, module=None, qual=None, params=None, returns=None, requires=()
     c.is_property = is_property
     c.ghost_entry = list(ghost_entry)          # ghost statements executed at function entry
     c.ghost_after = dict(ghost_after or {})
+    c.ghost_exit = list(ghost_exit)            # ghost statements executed at every normal exit, before the postconditions
     c.rely = list(rely)                        # two-state facts assumed across every yield point (G2)
     c.call_requires = dict(call_requires or {})  # callee key -> extra obligations at calls to it    # source text of a statement -> ghost statements run after it      # proved at every normal exit, not exported to callers
     c.locals = {k: T.parse_type(v) for k, v in (locals or {}).items()}
